@@ -22,15 +22,15 @@ CLAIMS.update({
          'trusted: numpy/OpenCV contract model (validated differentially each run); bounds: sequences of 3 (quick) / 4 (thorough) operations, <=4 live frames'),
  'C13': ('real rolllog.py over an in-memory file system with file_size, total_size and all timestamps as unconstrained z3 integers and a symbolic operation sequence; file-name equality decided by z3 on symbolic stamps; list-model oracle',
          'trusted: fake FS (POSIX semantics incl. unlinked-but-open files), exact-microsecond timestamps (float rounding of ts*1e6 outside the claim); bounds: 4-5 operations, <=6 records of 1-2 bytes'),
- 'C14': ('real rolllog.py reader with persisted head over the fake FS; crash point = symbolic index into the mutations of write_head (create/write/rename, torn temp content), restarts <=2; no record on disk skipped, restart never raises',
-         'trusted: fake FS with atomic rename (process crash, not power loss); bounds: 5-6 operations, <=5 records'),
+ 'C14': ('real rolllog.py reader with persisted head over the fake FS; crash point = symbolic index into the mutations of write_head (create/write/rename, torn temp content), restarts <=2; second harness with retention pruning by the writer (total_size symbolic) while the reader is up or down; no record on disk skipped (the reader may only jump over records whose file was pruned), restart never raises',
+         'trusted: fake FS with atomic rename (process crash, not power loss); bounds: 5-6 operations, <=5 records; thorough harnesses that do not finish inside their budget are reported PARTIAL (evidence exhaustive=false)'),
  'C17': ('real Util.execute_xform_size/execute_xforms/execute_xform_box and VideoReader.thread_reader size arithmetic: bounds symbolic in [1,4096], Python floats as reals with sound rounding envelopes; flips/rotations/conversions against reference index maps at a symbolic pixel',
          'trusted: IEEE rounding model (envelope 2^-30), OpenCV contract model; image sizes for the size laws from an explicit set of 14 (quick) / 131 (thorough) sizes; interpolation values outside the claim'),
 })
 CLAIMS.update({
  'C12': ('real cli/common.py parse_filters on symbolically composed command lines; explicit TCP ports are z3 integers carried through the strings as digit tokens; z3 proves every auto-allocated {a,a+1} disjoint from every other bound {p,p+1}; id resolution, suffixes, pass-through checked on every path',
          'trusted: digit-token string model; bounds: 1-3 filters with full option variation or fixed 3-4 filter chains, ports in [1024,65000]; no mixed MQ/non-MQ outputs'),
- 'C16': ('real OTelLineageExporter.export/_is_allowed with a symbolic allow-list (size, exact membership and wildcard-match matrix are z3 booleans); z3 proves each exported key allowed, empty list exports nothing, histogram length law for all lengths 0-4; read_allowlist on env/YAML samples',
+ 'C16': ('real OTelLineageExporter.export/_is_allowed with a symbolic allow-list (size, exact membership and wildcard-match matrix are z3 booleans); z3 proves each exported key allowed, empty list exports nothing, histogram length law for all lengths 0-4; read_allowlist on env/YAML samples feeding the real exporter with the real fnmatch as reference (choice-enumerated concrete allow-lists incl. the *_histogram spelling x metric names x counter/gauge/histogram)',
          'trusted: stdlib fnmatch semantics; metric values concrete; bounds: 0-3 patterns, 1-3 data points'),
 })
 CLAIMS.update({
